@@ -25,50 +25,70 @@ Print Assumptions C07_routing_reply_and_keep.
 (* exc_roundtrip — plain call, attribute access, streamed item; any serializer whose library is
    lossless on plain data; all args / attributes in the lossless core: the caller gets exactly that
    class, equal args, equal attributes plus the traceback, and both ends stay connected *)
-Theorem C07_exc_roundtrip : forall codec ctor,
+Theorem C07_exc_roundtrip : forall codec serr ctor,
   (forall s v, plain v = true -> codec s v = Some v) ->
   forall ci, In ci exc_table -> good ci = true ->
   forall s k args attrs tbv, single_kind k = true ->
   core_list args = true -> core_attrs attrs = true -> plain tbv = true ->
   ctor (qname ci) args = Some args ->
-  run quirks_none gen_tables gen_facts codec ctor s k {| e_cls := ci; e_args := args; e_attrs := attrs |} tbv =
+  run quirks_none gen_tables gen_facts codec serr ctor s k {| e_cls := ci; e_args := args; e_attrs := attrs |} tbv =
   {| r_before := 0; r_out := ORaised (qname ci) args (set_attr k_traceback tbv attrs); r_conn := conn_ok |}.
 Proof. exact exc_roundtrip_gen. Qed.
 Print Assumptions C07_exc_roundtrip.
 
 (* exc_roundtrip — batch member at any position: the results before it are delivered, then the same
    exception is raised (StopIteration excepted, see C07_batch_stopiteration_refuted) *)
-Theorem C07_exc_roundtrip_batch : forall codec ctor,
+Theorem C07_exc_roundtrip_batch : forall codec serr ctor,
   (forall s v, plain v = true -> codec s v = Some v) ->
   forall ci, In ci exc_table -> good ci = true -> isa ci c_StopIteration = false ->
   forall s before args attrs tbv,
   forallb plain before = true -> forallb nodict before = true ->
   core_list args = true -> core_attrs attrs = true -> plain tbv = true ->
   ctor (qname ci) args = Some args ->
-  run quirks_none gen_tables gen_facts codec ctor s (KBatch before) {| e_cls := ci; e_args := args; e_attrs := attrs |} tbv =
+  run quirks_none gen_tables gen_facts codec serr ctor s (KBatch before) {| e_cls := ci; e_args := args; e_attrs := attrs |} tbv =
   {| r_before := length before; r_out := ORaised (qname ci) args (set_attr k_traceback tbv attrs); r_conn := conn_ok |}.
 Proof. exact exc_roundtrip_batch_gen. Qed.
 Print Assumptions C07_exc_roundtrip_batch.
 
-(* exc_fallback — the exception cannot be serialised and its class is one that gets a reply: the
-   caller receives PyroError naming the original class, with traceback; never "no reply" *)
-Theorem C07_exc_fallback : forall codec ctor ci,
+(* the `except` guarding serializer.dumps(exc_value) in _sendExceptionResponse, as extracted from the tree,
+   catches Exception (or everything): whatever class the serialiser fails with, the fallback runs *)
+Theorem C07_fallback_catch_general :
+  mem c_Exception (f_fallback_catch gen_facts) || mem c_BaseException (f_fallback_catch gen_facts) = true.
+Proof. exact gen_fallback_general. Qed.
+Print Assumptions C07_fallback_catch_general.
+
+(* exc_fallback — the exception cannot be serialised (the serialiser raises ANY ordinary exception class:
+   [serr] is arbitrary) and its class is one that gets a reply: the caller receives PyroError naming the
+   original class, with traceback; never "no reply".  Rests on C07_fallback_catch_general. *)
+Theorem C07_exc_fallback : forall codec serr ctor ci,
   (route gen_facts ci = ReplyKeep \/ route gen_facts ci = ReplyClose) ->
   forall s k args attrs tbv, single_kind k = true ->
   codec s (class_to_dict gen_tables (with_tb {| e_cls := ci; e_args := args; e_attrs := attrs |} tbv)) = None ->
-  r_out (run quirks_none gen_tables gen_facts codec ctor s k {| e_cls := ci; e_args := args; e_attrs := attrs |} tbv) =
+  is_exception (serr s (class_to_dict gen_tables (with_tb {| e_cls := ci; e_args := args; e_attrs := attrs |} tbv))) = true ->
+  r_out (run quirks_none gen_tables gen_facts codec serr ctor s k {| e_cls := ci; e_args := args; e_attrs := attrs |} tbv) =
   OFallback c_PyroError (qname ci) true.
 Proof. exact exc_fallback_gen. Qed.
 Print Assumptions C07_exc_fallback.
 
+(* necessity: with the `except` narrowed to (SerializeError, TypeError, ValueError), content whose
+   serialisation raises KeyError gets no reply at all, where today's structure sends the fallback *)
+Theorem C07_narrow_fallback_refuted : forall s,
+  r_out (run quirks_none gen_tables facts_narrow_fallback std_codec (std_serr gen_tables) std_ctor s KPlain
+           (badobj_exc c_ValueError c_KeyError) tb0) = OConnLost /\
+  r_out (run quirks_none gen_tables facts_today std_codec (std_serr gen_tables) std_ctor s KPlain
+           (badobj_exc c_ValueError c_KeyError) tb0) = OFallback c_PyroError c_ValueError true.
+Proof. exact narrow_fallback_loses_reply. Qed.
+Print Assumptions C07_narrow_fallback_refuted.
+
 (* proxy_usable_after — whatever the content (serialisable or not) and whatever the constructor does on
    the receiving side, after the error reply both ends are connected exactly as after a result reply *)
-Theorem C07_proxy_usable_after : forall codec ctor,
+Theorem C07_proxy_usable_after : forall codec serr ctor,
   (forall s v, plain v = true -> codec s v = Some v) ->
   (forall s v, plain v = false -> codec s v = None) ->
+  (forall s v, is_exception (serr s v) = true) ->
   forall ci, In ci exc_table -> good ci = true ->
   forall s k args attrs tbv, single_kind k = true ->
-  r_conn (run quirks_none gen_tables gen_facts codec ctor s k {| e_cls := ci; e_args := args; e_attrs := attrs |} tbv) = conn_ok.
+  r_conn (run quirks_none gen_tables gen_facts codec serr ctor s k {| e_cls := ci; e_args := args; e_attrs := attrs |} tbv) = conn_ok.
 Proof. exact proxy_usable_gen. Qed.
 Print Assumptions C07_proxy_usable_after.
 
@@ -111,14 +131,14 @@ Print Assumptions C07_batch_stopiteration_refuted.
 
 Theorem C07_marshal_none_kwargs_refuted : forall sh,
   let Q := {| q_marshal_none_kwargs := true; q_marshal_shallow := sh |} in
-  r_out (run Q gen_tables facts_today std_codec std_ctor Marshal KAttr (simple_exc c_ValueError) tb0) = OLocalErr c_AttributeError /\
-  r_out (run Q gen_tables facts_today std_codec std_ctor Marshal (KBatch []) (simple_exc c_ValueError) tb0) = OLocalErr c_AttributeError.
+  r_out (run Q gen_tables facts_today std_codec (std_serr gen_tables) std_ctor Marshal KAttr (simple_exc c_ValueError) tb0) = OLocalErr c_AttributeError /\
+  r_out (run Q gen_tables facts_today std_codec (std_serr gen_tables) std_ctor Marshal (KBatch []) (simple_exc c_ValueError) tb0) = OLocalErr c_AttributeError.
 Proof. exact marshal_none_kwargs. Qed.
 Print Assumptions C07_marshal_none_kwargs_refuted.
 
 Theorem C07_marshal_batch_shallow_refuted :
   let Q := {| q_marshal_none_kwargs := false; q_marshal_shallow := true |} in
-  r_out (run Q gen_tables facts_today std_codec std_ctor Marshal (KBatch [XInt 100]) (simple_exc c_ValueError) tb0) = OSerErr c_ValueError.
+  r_out (run Q gen_tables facts_today std_codec (std_serr gen_tables) std_ctor Marshal (KBatch [XInt 100]) (simple_exc c_ValueError) tb0) = OSerErr c_ValueError.
 Proof. exact marshal_batch_shallow. Qed.
 Print Assumptions C07_marshal_batch_shallow_refuted.
 
@@ -129,10 +149,10 @@ Proof. split; [exact std_codec_plain | exact std_codec_opaque]. Qed.
 Example C07_nonvacuous_classes : 40 <= length (filter good exc_table) /\ In (cls c_ValueError) exc_table /\ good (cls c_ValueError) = true.
 Proof. split; [exact good_nonempty|]. split; [exact value_error_in | exact value_error_good]. Qed.
 Example C07_nonvacuous_roundtrip :
-  run quirks_none gen_tables gen_facts std_codec std_ctor Msgpack (KBatch [XInt 100; XInt 101]) (simple_exc c_ValueError) tb0 =
+  run quirks_none gen_tables gen_facts std_codec (std_serr gen_tables) std_ctor Msgpack (KBatch [XInt 100; XInt 101]) (simple_exc c_ValueError) tb0 =
   {| r_before := 2; r_out := ORaised c_ValueError [XStr [120%N]; XInt 3] [([102%N], XNone); (k_traceback, tb0)]; r_conn := conn_ok |}.
 Proof. vm_compute. reflexivity. Qed.
 Example C07_nonvacuous_fallback :
-  r_out (run quirks_none gen_tables gen_facts std_codec std_ctor Json KPlain (opaque_exc c_KeyError) tb0) =
+  r_out (run quirks_none gen_tables gen_facts std_codec (std_serr gen_tables) std_ctor Json KPlain (opaque_exc c_KeyError) tb0) =
   OFallback c_PyroError c_KeyError true.
 Proof. vm_compute. reflexivity. Qed.
